@@ -26,20 +26,55 @@ LEAN_SOURCES = ["LenaModel/Model/C17.lean", "LenaModel/Model/Flow.lean", "LenaMo
                 "LenaModel/Props/C17.lean"]
 DRIVER = "drivers/C05.lean"
 THEOREMS = [
+    # driver-consistency of each pre-processing element kind (sentence 1, per element)
     "Lena.C05.call_consistent",
     "Lena.C05.filter_consistent",
-    "Lena.C05.runIf_breaksFlow",
     "Lena.C05.runif_consistent",
     "Lena.C05.slice_consistent",
     "Lena.C05.slice_consistent_pyslice",
     "Lena.C05.stage_consistent",
     "Lena.C05.stage_consistent_strong",
-    "Lena.C05.seq_eq_fill",
+    # the three drivers (sentence 1): the statement as written is refuted; the proved parts
+    "Lena.C05.three_drivers_agree_full_false",
+    "Lena.C05.three_drivers_agree_partial",
+    "Lena.C05.seq_eq_fill_partial",
+    "Lena.C05.seq_eq_fill_spec",
+    "Lena.C05.preSafe_iff",
     "Lena.C05.fill_eq_split",
-    "Lena.C05.three_drivers_agree",
     "Lena.C05.three_drivers_agree_no_slice",
+    "Lena.C05.three_drivers_agree_no_slice_inputs",
     "Lena.C05.split_branches_independent",
     "Lena.C05.split_branch_eq_seq",
+    # from the real constructors to the chain, end to end on the driver's functions
+    "Lena.C05.preKind_converts",
+    "Lena.C05.construct_chain",
+    "Lena.C05.constructors_only_lenaTypeError",
+    "Lena.C05.spec_preKind",
+    "Lena.C05.spec_drivers_agree_partial",
+    "Lena.C05.fillComputeSeq_rejects",
+    # outside the property's kinds: what holds precisely
+    "Lena.C05.delivered_same",
+    "Lena.C05.count_dual",
+    "Lena.C05.neg_slice_fillRun",
+    "Lena.C05.split_fill_eq_run",
+    # sentence 2: the behaviour of the exposed method is that of the wrapped one; the constructors are the adapters
+    "Lena.C05.call_preserves_meaning",
+    "Lena.C05.run_preserves_meaning",
+    "Lena.C05.fillInto_preserves_meaning",
+    "Lena.C05.fillCompute_preserves_meaning",
+    "Lena.C05.toStage_is_run_adapter",
+    "Lena.C05.toPre_is_fillInto_adapter",
+]
+# true by unfolding / model-internal glue / superseded names: audited, not counted as obligations of the property
+AUX_THEOREMS = [
+    "Lena.C05.seq_eq_fill",
+    "Lena.C05.three_drivers_agree",
+    "Lena.C05.spec_drivers_agree",
+    "Lena.C05.runIf_breaksFlow",
+    "Lena.C05.bindS_breaksFlow",
+    "Lena.C05.inScopeB_iff",
+    "Lena.C05.nodata_dropped",
+    "Lena.C05.neg_slice_fill_into",
     "Lena.C05.adapter_accepts_iff",
     "Lena.C05.adapter_preserves",
     "Lena.C05.call_accepts_iff",
@@ -57,22 +92,6 @@ THEOREMS = [
     "Lena.C05.fillCompute_accepts_iff",
     "Lena.C05.fillCompute_rejects",
     "Lena.C05.fillCompute_preserves",
-    "Lena.C05.preKind_converts",
-    "Lena.C05.construct_chain",
-    "Lena.C05.constructors_only_lenaTypeError",
-    "Lena.C05.spec_preKind",
-    "Lena.C05.spec_drivers_agree",
-    "Lena.C05.inScopeB_iff",
-    "Lena.C05.preSafe_iff",
-    "Lena.C05.seq_eq_fill_spec",
-    "Lena.C05.delivered_same",
-    "Lena.C05.count_dual",
-    "Lena.C05.fillComputeSeq_rejects",
-    "Lena.C05.neg_slice_fill_into",
-    "Lena.C05.neg_slice_fillRun",
-    "Lena.C05.split_fill_eq_run",
-    "Lena.C05.bindS_breaksFlow",
-    "Lena.C05.nodata_dropped",
 ]
 TRUSTED = [
     "Lean 4.33.0 kernel; axioms limited to propext, Classical.choice, Quot.sound (audited by #print axioms on every run)",
@@ -82,25 +101,55 @@ TRUSTED = [
     "into LenaModel/Model/C05.lean, validated by this correspondence check",
     "Python generator semantics as modelled by streams (values yielded + terminating exception), itertools.islice as "
     "transcribed (validated likewise)",
-    "JSON line protocol encoders (harness/props/c05.py, drivers/C05.lean)",
+    "JSON line protocol encoders (harness/props/c05.py, drivers/C05.lean), including the representation of None by quot 0 0",
+    "the hand-written capability tables and method denotations of the element vocabulary (Spec.toObj, synMeths), compared "
+    "with the real objects by ops caps / adapter on every run",
+    "the Python reference for PreSafe (ref_gen) and the documented adapter rule (adapter_reference) used by the oracle",
+    "the Prop-level hypotheses BreaksFlow / PreWF / AccNoStop have no executable twin: they are proved for the modelled "
+    "vocabulary (runIf_breaksFlow, bindS_breaksFlow, accOf_noStop, spec_preKind) and assumed of other elements",
 ]
 ASSUMPTIONS = [
-    "finite flows given as iterators over lists; the consumer drains the result",
-    "Python attribute lookup (hasattr/callable/isinstance Split/is None) is represented by capability flags read from the "
-    "real objects",
-    "element objects are used once (fresh objects per driver); elements inside RunIf are stateless",
-    "an accumulator Count is wrapped in FillCompute(Count()) (it has run, fill/compute and a counting fill_into; see "
-    "DESIGN.md section 6, judgement calls); a bare Count at the accumulator position is generated too and checked "
-    "against theorem count_dual (same delivered values, same count, different results), never as a pre-processing "
-    "element (its counting fill_into is not modelled)",
+    "the three drivers are compared on finite flows that end normally, handed over as a list iterator, a list, a tuple or "
+    "a generator; the consumer drains the result (a flow that raises or is infinite distinguishes the drivers — Split.run "
+    "keeps reading buffers, islice stops pulling: C02); only op `stage` feeds single elements with an input that raises",
+    "value alphabet of the flows: ints, strings, lists, tuples, (data, context) pairs with string-keyed contexts, None "
+    "(model: the otherwise unused value quot 0 0); no bool / float INPUT values (the accumulators' arithmetic on them is not "
+    "modelled; Mean's float result is compared as float(n)/float(d) computed from the model's exact pair)",
+    "callables of the vocabulary are pure functions of the value (they may raise, return None, 0, [], ()); selectors are "
+    "pure and may return non-bool truthy/falsy values; Variable updates the context of the value in place (the harness "
+    "hands fresh copies to every driver; aliasing/deep copies of Split buffers and copy_buf are C04's, here only exercised: "
+    "copy_buf=False is generated for branches that do not change their values)",
+    "Python attribute lookup (hasattr/callable/isinstance Split/is None) is represented by capability flags; the "
+    "hand-written flag tables of Spec.toObj are compared with the real objects (op caps); method names are strings (a "
+    "non-string name makes getattr raise Python's TypeError: outside the statement)",
+    "element objects are used once (fresh objects per driver). A RunIf whose inner sequence keeps state between its "
+    "one-value runs (Count, an accumulator inside) is NOT covered by the model nor by spec_drivers_agree (Spec.InScope "
+    "requires a stateless inner sequence: the model runs the inner sequence afresh per value); such chains are generated "
+    "and the real drivers compared with each other (oracle only)",
+    "accumulators: the theorems hold for every state machine Acc (fill may raise, compute returns its values or raises, "
+    "never LenaStopFill: AccNoStop, proved for the four modelled ones, assumed of the others); modelled and compared: "
+    "Sum, Mean, StoreFilled, FillCompute(Count); oracle only (real drivers against each other): DSum, "
+    "VarianceMeanCount, Histogram, a nested FillComputeSeq, FillCompute(el, fill=, compute=) with custom names; explicit "
+    "Call/Run/FillInto objects as chain elements likewise",
+    "an accumulator Count is wrapped in FillCompute(Count()) (DESIGN.md section 6); a bare Count at the accumulator position "
+    "is checked against theorem count_dual; Count as a pre-processing element (counting fill_into) is not modelled and "
+    "never generated in a chain (the adapter table shows the model gives its fill_into no meaning)",
     "a Split used through its own fill/compute (dual interface) is compared with Split.run only when no branch stops "
     "(theorem split_fill_eq_run; notes/C05_observation_split_fill.md)",
-    "FillRequest, FillRequestSeq and Split branches of type fill_request/source/sequence belong to C16 and C03",
-    "the three drivers are required to agree when no pre-processing element raises on the flow (hypothesis PreSafe of the "
-    "theorems, evaluated here by an independent Python reference) or when there is no Slice before the accumulator: "
-    "Slice.fill_into needs one more value than islice to notice the end, so an exception of an upstream callable on that "
-    "look-ahead value is seen by one driver only (recorded judgement, not a finding)",
-    "Mean's float result is compared as float(n)/float(d) computed from the model's exact pair",
+    "FillRequest, FillRequestSeq and Split branches of type fill_request/source/sequence belong to C16 and C03; FillSeq "
+    "filled value by value has no model of its own: fillRun stands for FillComputeSeq and for FillSeq+compute+Sequence(post), "
+    "both real variants are compared with it",
+    "sentence 1 as written is false of the code (look-ahead value of Slice.fill_into: theorem "
+    "three_drivers_agree_full_false, notes/C05_judgement_lookahead.md); the drivers are required to agree when no "
+    "pre-processing element raises on the flow (PreSafe, decided here by an independent Python reference) or when there is "
+    "no Slice before the accumulator; with a Slice and a raising element only 'both complete => equal' is demanded "
+    "(uncovered gap: chains with a Slice in which an element raises on a value that both drivers evaluate)",
+    "sentence 2 is CHECKED (complete adapter x capability x method-name table, the adapter's method against the wrapped "
+    "method invoked directly, also on the 2nd and 3rd invocation for Call) rather than proved: the Lean side are dispatch "
+    "tables (AUX_THEOREMS) plus denotations of the bindings whose evaluation on samples is compared with the real adapters; "
+    "SourceEl has labels only",
+    "known defects reported by this check until fixed: notes/C05_defect_1 (Run(None, run=<not callable>) accepted), "
+    "notes/C05_defect_2 (FillInto.__repr__ raises AttributeError, hiding LenaTypeError of constructors)",
 ]
 RULE = ("exhaustive: every pre-processing sequence of length <= 2 over representative elements of the property's kinds "
         "(callable, Variable, Filter, non-negative Slice, RunIf incl. its constructor variants, a second flow-breaking "
@@ -437,11 +486,26 @@ def build(spec):
             return lena.math.Vectorize(lena.math.Sum(), construct=tuple)
         if a == "nested":
             return lena.core.FillComputeSeq(*[build(x) for x in spec["chain"]])
+        if a == "fcnamed":
+            return lena.core.FillCompute(syn_class({"my_fill": 2, "my_compute": 2}, False)(),
+                                         fill="my_fill", compute="my_compute")
         raise ValueError(a)
     if k == "syn":
         return syn_class(spec["attrs"], spec["call"], spec.get("nodata", False))()
     if k == "dup":
         return _Dup()
+    if k == "wrap":
+        # an adapter built by the caller and used as a chain element (compared between the real drivers only)
+        ad = spec["ad"]
+        if ad == "Call":
+            return lena.core.Call(build(spec["el"]))
+        if ad == "CallNamed":
+            return lena.core.Call(syn_class({"my": 2}, False)(), call="my")
+        if ad == "Run":
+            return lena.core.Run(build(spec["el"]))
+        if ad == "FillInto":
+            return lena.core.FillInto(build(spec["el"]))
+        raise ValueError(ad)
     if k == "filtert":
         # a selector that returns a truthy / falsy value that is not a bool
         if spec["q"] == "odd":
@@ -549,6 +613,12 @@ def ref_gen(spec, it):
     elif k == "const":
         for v in it:
             yield dec(spec["v"])
+    elif k == "wrap" and spec["ad"] == "Call":
+        for v in ref_gen(spec["el"], it):
+            yield v
+    elif k == "wrap" and spec["ad"] == "CallNamed":
+        for v in it:
+            yield ["my", v]
     elif k == "reverse":
         for v in reversed(list(it)):
             yield v
@@ -598,7 +668,9 @@ def oracle_only(specs):
     for x in specs:
         if x["k"] == "runif" and (not stateless_list(x["inner"]) or oracle_only(x["inner"])):
             return True
-        if x["k"] == "acc" and x["a"] in ("dsum", "vmc", "hist", "vec", "nested"):
+        if x["k"] == "acc" and x["a"] in ("dsum", "vmc", "hist", "vec", "nested", "fcnamed"):
+            return True
+        if x["k"] == "wrap":
             return True
     return False
 
@@ -606,6 +678,10 @@ def oracle_only(specs):
 def pre_in_scope(pre):
     """the property's pre-processing kinds: callable, Variable, Filter, non-negative Slice, RunIf"""
     for s in pre:
+        if s["k"] == "wrap" and s["ad"] in ("Call", "CallNamed"):
+            if s["ad"] == "Call" and s["el"]["k"] not in ("call", "var", "const"):
+                return False
+            continue                    # Call(callable) / Call(obj, call=name) are callables
         if s["k"] not in PRE_KINDS:
             return False
         if s["k"] == "slice" and any(x is not None and x < 0 for x in s["args"]):
@@ -637,13 +713,35 @@ def _construct(thunk):
         return None, {"e": exc_name(e), "phase": "init"}
 
 
+class FlowRestarted(Exception):
+    """the flow container was iterated from its beginning again and again (a driver that never finishes)"""
+
+
+def _guarded(base):
+    class Guarded(base):
+        """a real list/tuple whose iteration may be started at most 3 times: a driver that restarts the flow for every
+        buffer would never terminate; this turns the hang into an exception"""
+        _starts = 0
+
+        def __iter__(self):
+            self._starts += 1
+            if self._starts > 3:
+                raise FlowRestarted("the flow was restarted %d times" % self._starts)
+            return base.__iter__(self)
+    Guarded.__name__ = base.__name__
+    return Guarded
+
+
+_GList, _GTuple = _guarded(list), _guarded(tuple)
+
+
 def make_flow(flow, form="iter"):
     """the flow as the caller hands it over: a list iterator (default), the list itself, a tuple, a generator"""
     vals = dec(flow)
     if form == "list":
-        return vals
+        return _GList(vals)
     if form == "tuple":
-        return tuple(vals)
+        return _GTuple(vals)
     if form == "gen":
         return (v for v in vals)
     return iter(vals)
@@ -889,9 +987,12 @@ def adapter_observe(case):
     def use(kind, f=None):
         """invoke a binding on the sample"""
         if ad in ("Call",):
-            return _canon_obs(lambda: f(7))
+            return _canon_obs(lambda: [f(7), f(8), f(9)])        # also the 2nd, 3rd invocation
         if ad == "SourceEl":
-            return _canon_obs(lambda: f())
+            def twice():
+                a, b = f(), f()
+                return [list(a) if hasattr(a, "__next__") else a, list(b) if hasattr(b, "__next__") else b]
+            return _canon_obs(twice)
         if ad == "Run":
             return _canon_obs(lambda: f(iter([1, 2])))
         if ad == "FillInto":
@@ -1438,7 +1539,12 @@ NEG_SLICES = [[-1], [-2], [1, -1], [-3, None], [-2, None, 2], [-3, -1], [-3, 2],
 BAD_SLICES = [[0, 5, 0], [1, -1, 0], [None, None, 0]]
 PREDS = ["even", "pos", "lt5", "all", "none"]
 CONSTS = [{"none": True}, 0, [], {"t": []}, 7, "s"]
-ORACLE_ACCS = [{"k": "acc", "a": "dsum"}, {"k": "acc", "a": "vmc"}, {"k": "acc", "a": "hist"},
+WRAPS = [{"k": "wrap", "ad": "Call", "el": {"k": "call", "f": "inc"}}, {"k": "wrap", "ad": "Call", "el": {"k": "call", "f": "boom"}},
+         {"k": "wrap", "ad": "Call", "el": {"k": "var", "name": "x", "f": "neg"}}, {"k": "wrap", "ad": "CallNamed"},
+         {"k": "wrap", "ad": "FillInto", "el": {"k": "call", "f": "inc"}},
+         {"k": "wrap", "ad": "FillInto", "el": {"k": "filter", "p": "even"}},
+         {"k": "wrap", "ad": "Run", "el": {"k": "call", "f": "inc"}}]
+ORACLE_ACCS = [{"k": "acc", "a": "fcnamed"}, {"k": "acc", "a": "dsum"}, {"k": "acc", "a": "vmc"}, {"k": "acc", "a": "hist"},
                {"k": "acc", "a": "nested", "chain": [{"k": "call", "f": "inc"}, {"k": "acc", "a": "sum"}]},
                {"k": "acc", "a": "nested", "chain": [{"k": "filter", "p": "even"}, {"k": "acc", "a": "store", "group": False},
                                                      {"k": "call", "f": "wrap"}]}]
@@ -1549,6 +1655,8 @@ def gen_pre_el(rng, in_scope=True):
         return {"k": "const", "v": rng.choice(CONSTS)}
     if r < 0.85:
         return {"k": "dup"}
+    if r < 0.87:
+        return rng.choice(WRAPS[:4])
     return gen_runif(rng, in_scope)
 
 
@@ -1785,6 +1893,12 @@ def gen_cases(ctx):
                 for fl in (FLOW_C, FLOW_B, [1, 2, 3]):
                     yield {"op": "chain", "args": [{"k": "runif", "p": p, "inner": inner}, acc], "flow": fl,
                            "bufsizes": bufsizes_for(len(fl))}
+    for w in WRAPS:
+        for acc in (ACCS[0], ACCS[3], ORACLE_ACCS[0]):
+            for fl in (FLOW_A, FLOW_B):
+                yield {"op": "chain", "args": [w, acc], "flow": fl, "bufsizes": bufsizes_for(len(fl))}
+                yield {"op": "chain", "args": [{"k": "slice", "args": [1, 5]}, w, acc, {"k": "wrap", "ad": "Run", "el": {"k": "call", "f": "wrap"}}],
+                       "flow": fl, "bufsizes": [1, 2, None]}
     for acc in ORACLE_ACCS:
         for pre in ([], [{"k": "call", "f": "inc"}], [{"k": "filter", "p": "even"}, {"k": "slice", "args": [1, 4]}]):
             for fl in (FLOW_A, FLOW_C, []):
@@ -1897,19 +2011,20 @@ def nontrivial(case, res):
 
 
 def classify(case, res):
+    """few, coarse labels (the evidence keeps the 60 most frequent ones)"""
     op = case["op"]
     labels = ["op:" + op]
     if op == "adapter":
         labels.append("adapter:" + case["adapter"] + ":" + ("rejected" if res.get("e") else "accepted"))
-        labels.append("adapter-el:" + case["el"]["k"])
         return labels
     if op == "stage":
-        labels.append("stage:" + case["el"]["k"] + (":term" if case.get("term") else ""))
         if "fill" in res:
-            labels.append("stage-end:" + res["fill"]["end"])
+            labels.append("stage-end:" + res["fill"]["end"] + (":input-raises" if case.get("term") else ""))
         return labels
     if op == "fillseq_init":
         labels.append("fillseq_init:" + ("ok" if res["res"].get("ok") else res["res"].get("e", "?")))
+        return labels
+    if op == "caps":
         return labels
     if op == "splitfc":
         labels.append("splitfc:" + ("skip" if "skip" in res["fc"] else "init" if "e" in res["fc"] else
@@ -1919,24 +2034,22 @@ def classify(case, res):
     for s in (case["args"] if op == "chain" else [s for b in case["branches"] for s in b]):
         _kinds(s, ks)
     labels += ["el:" + k for k in sorted(set(ks))]
-    labels.append("flowlen:%d" % len(case["flow"]))
+    if oracle_only(_case_specs(case)):
+        labels.append("oracle-only")
+    if case.get("flowform"):
+        labels.append("flowform:" + case["flowform"])
     if op == "chain":
         v = res["seq"]
-        labels.append("seq:" + ("init:" + v["e"] if "e" in v else ("ok" if v["t"] is None else "raises:" + v["t"])))
-        f = res["fill"]
-        labels.append("fill:" + ("init:" + f["e"] if "e" in f else ("ok" if f["t"] is None else "raises:" + f["t"])))
+        labels.append("seq:" + ("init" if "e" in v else ("ok" if v["t"] is None else "raises")))
         labels.append("safe:" + str(res["safe"]))
-        sp = split_point(case["args"])
-        if sp:
-            labels.append("npre:%d" % len(sp[0]))
-            labels.append("npost:%d" % len(sp[2]))
+        f = res["fill"]
         if "r" in v and "r" in f and v != f:
             labels.append("lookahead-divergence")
     else:
-        labels.append("branches:%d" % len(case["branches"]))
-        labels.append("bufsize:" + str(case["bufsize"] if case["bufsize"] in (None, 1, 2, 3, 1000) else "other"))
         sp = res["split"]
-        labels.append("split:" + ("init:" + sp["e"] if "e" in sp else ("ok" if sp["t"] is None else "raises:" + sp["t"])))
+        labels.append("split:" + ("init" if "e" in sp else ("ok" if sp["t"] is None else "raises")))
+        if case.get("copy_buf") is False:
+            labels.append("copy_buf=False")
     return labels
 
 
@@ -1996,15 +2109,20 @@ def shrink(case):
 LEVEL_TEXT = ("Lean 4 theorems about a transcribed model of the three drivers of a chain pre* acc post* (Sequence.run over "
               "lazily evaluated streams; the _Fill chain of FillSeq/FillComputeSeq filled value by value until LenaStopFill; "
               "Split.run with fill_compute branches, any bufsize, any number of sibling branches; Split.fill/compute), for "
-              "ALL chains, accumulators (abstract state machines), post-processing stages, flows and bufsizes; per-element "
-              "driver-consistency lemmas (callable, Filter, Slice, RunIf / any flow-breaking Run element), the safety "
-              "hypothesis characterised (preSafeB sound and complete), what holds outside the property's kinds (dual-"
-              "interface accumulators, negative Slice, elements without a fill face), the adapter acceptance/binding "
-              "tables and the constructors; tied to /repo by a correspondence check (exhaustive small scopes + seeded "
-              "sampling) that executes every definition the theorems mention, and a direct oracle comparing the drivers "
-              "on the real code.")
+              "ALL chains of callables, Filters, non-negative Slices and stateless flow-breaking Run elements, all "
+              "accumulators that are state machines, all post-processing stages, finite flows and bufsizes. Sentence 1 as "
+              "written is refuted (three_drivers_agree_full_false: look-ahead value of Slice.fill_into); proved are the "
+              "statement under the hypothesis PreSafe (sound and complete executable check), the statement without a Slice, "
+              "and the unconditional equality FillComputeSeq = Split branch; per-element driver-consistency lemmas; what "
+              "holds outside the property's kinds. Sentence 2 (adapters) is checked by a complete enumeration against the "
+              "real adapters, with Lean dispatch tables and denotations of the bound methods as the model. Tied to /repo by "
+              "a correspondence check that executes every executable definition the theorems mention, and a direct oracle "
+              "comparing the real drivers (also for stateful RunIf bodies, further accumulators, explicit adapter objects, "
+              "None values, non-bool selectors, list/tuple/generator flows, which the model does not express).")
 LEVEL_NOTE = ("Trusted: Lean kernel (+ propext, Classical.choice, Quot.sound), the hand transcription validated by the "
-              "correspondence run, generator/islice semantics as transcribed, the JSON protocol. Hypothesis of the main "
-              "theorem: no pre-processing element raises on the flow (or there is no Slice before the accumulator).")
+              "correspondence run, generator/islice semantics as transcribed, the JSON protocol. Not proved: sentence 1 "
+              "without PreSafe (false), chains with a Slice in which an element raises on a value both drivers evaluate, "
+              "RunIf with a stateful inner sequence, sentence 2 beyond dispatch tables. Two defects of /repo are reported "
+              "until fixed (notes/C05_defect_1, C05_defect_2).")
 TECHNIQUE = "Lean 4 proof over hand-written model + correspondence check (exhaustive small scopes, seeded sampling)"
 DESIGN_REF = "DESIGN.md section 3, C05"
